@@ -58,6 +58,7 @@ GENERAL_PDDL_KEYWORDS = {
     "types",
     "constants",
     "predicates",
+    "functions",
     "problem",
     "either",
     "number",
@@ -96,8 +97,11 @@ GENERAL_PDDL_KEYWORDS = {
     "quantified-preconditions",
     "conditional-effects",
     "fluents",
+    "numeric-fluents",
+    "action-costs",
     "adl",
     "durative-actions",
+    "duration-inequalities",
     "derived-predicates",
     "timed-initial-literals",
     "timed-initial-effects",
